@@ -1808,7 +1808,9 @@ bool TypeChecker::checkExpression(expression_t expr)
     }
 
     case NUMOF: {
-        template_t* temp = document.find_dynamic_template(expr[0].get_symbol().get_name());
+        // the operand has no symbol when the name could not be resolved
+        symbol_t counted = expr[0].get_symbol();
+        template_t* temp = (counted == symbol_t()) ? nullptr : document.find_dynamic_template(counted.get_name());
         if (temp) {
             type = type_t::create_primitive(Constants::INT);
         } else {
